@@ -242,7 +242,7 @@ def ref_ring(faces, marked):
     return {fi for fi, f in enumerate(faces) if fi in marked or nodes.intersection(f)}
 
 
-def body_clip_mesh(ctx, mesh, variant, buffer, via):
+def body_clip_mesh(ctx, mesh, variant, buffer, via, free=None):
     from emsarray.conventions.ugrid import UGrid, buffer_faces, mask_from_face_indexes
     kw = {
         'noedge': dict(),
@@ -252,13 +252,18 @@ def body_clip_mesh(ctx, mesh, variant, buffer, via):
         # one-based integer tables whose fill value is 0 / -1: the raw value under the mask is (or maps to) a node number
         'fill0': dict(supply=('edge_node', 'face_edge'), start_index=1, fill='attr', fill_value=0),
         'fillneg': dict(with_edges=True, start_index=0, fill='attr', fill_value=-1),
+        # the optional face-face table is there too (it lists faces that share an *edge*; rings grow over shared nodes)
+        'faceface': dict(supply=('edge_node', 'face_face'), fill='nan'),
+        # tables stored in the smallest integer type that holds the node numbers
+        'int8': dict(supply=('edge_node',), dtype='int8', fill='none'),
     }[variant]
     ds = builders.ugrid(mesh, **kw)
     nodes, faces = builders.MESHES[mesh]
     convention = UGrid(ds)
     topology = convention.topology
     nf = len(faces)
-    hits = [ctx.bool(f'hit{f}') for f in range(nf)]
+    # (free: on a large mesh only these faces may be hit, the others are not)
+    hits = [ctx.bool(f'hit{f}') if (free is None or f in free) else False for f in range(nf)]
     chosen = [f for f in range(nf) if bool(hits[f])]          # forks: solver-guided enumeration
     expected = set(chosen)
     for _ in range(buffer):
@@ -411,6 +416,14 @@ def cases(tier):
                 for via in ('make_clip_mask', 'functions'):
                     yield Case(f'clipmesh:{mesh}:{variant}:buf{buffer}:{via}', body_clip_mesh,
                                dict(mesh=mesh, variant=variant, buffer=buffer, via=via), max_paths=5000)
+    for mesh in (('fan', 'qqqtt') if q else ('fan', 'qqqtt', 'block', 'strip5')):
+        for buffer in (1, 2):
+            for via in ('make_clip_mask', 'functions'):
+                yield Case(f'clipmesh:{mesh}:faceface:buf{buffer}:{via}', body_clip_mesh,
+                           dict(mesh=mesh, variant='faceface', buffer=buffer, via=via), max_paths=5000)
+    for buffer in (0, 1):
+        yield Case(f'clipmesh:grid4:int8:buf{buffer}:make_clip_mask', body_clip_mesh,
+                   dict(mesh='grid4', variant='int8', buffer=buffer, via='make_clip_mask', free=(0, 5, 10, 15) if q else (0, 3, 5, 6, 10, 15)), max_paths=5000)
     for (h, w) in ([(2, 2), (3, 3)] if q else [(2, 2), (3, 3), (4, 4)]):
         yield Case(f'monotone:{h}x{w}', body_monotone, dict(h=h, w=w), validate=False)
 
